@@ -331,6 +331,34 @@ def run(chk):
                         cur, changed = cand, True
                         break
             chk.violation(check_overlap(chk, cur)[2], {"history_overlapping_sends": ev_json(cur)}, key=None)
+    # every single-frame length in every numbering state: the stamped header checksum is valid for the stamped flags
+    sw_bad = None
+    n_sw = 0
+    for start in range(4):
+        # reach state `start` (0 fresh; 1,2,3 after that many matching ACKs), then send frames of every length
+        pre = []
+        for q in range(start):
+            pre += [("s", 0x00010000, b""), ("a", q)]
+        for lo in range(0, 244, 61):
+            evs = list(pre)
+            m = start
+            for ln in range(lo, min(lo + 61, 244)):
+                evs += [("s", 0x00020000 + ln, bytes([ln & 0xFF]) * ln), ("a", 0 if m == 0 else (m - 1) % 3 + 1)]
+                m += 1
+            writes, _ = run_history(evs)
+            data = [w for w in writes if not (bytes.fromhex(w)[5] & 1)]
+            dec = chk.model.batch(["specdec %s" % w for w in data])
+            n_sw += len(data)
+            for w, d in zip(data, dec):
+                if d == "NONE" and sw_bad is None:
+                    sw_bad = w
+    chk.count("stamp_sweep_frames", n_sw)
+    chk.evaluations += n_sw
+    chk.oblige("monitor:stamped-header-checksum-valid(every frame length x numbering state: %d frames)" % n_sw, sw_bad is None, sw_bad or "")
+    if sw_bad:
+        b = bytes.fromhex(sw_bad)
+        chk.violation("a stamped frame of length field %d, flags 0x%02x carries header checksum 0x%02x, which is not the CRC-8 of its "
+                      "length/type/flags bytes: %s" % (b[2] | (b[3] << 8), b[5], b[6], sw_bad[:40]), {"frame": sw_bad}, key="stamp-crc8")
     chk.oblige("tieB:overlapping-sends-vs-model(%d histories)" % len(ov), ov_tie is None, json.dumps(ov_tie)[:300] if ov_tie else "")
     chk.oblige("monitor:number-current-at-write-time(overlapping sends)", ov_mon is None, json.dumps(ov_mon)[:300] if ov_mon else "")
     if ov_tie and not ov_mon and not mon_bad:
